@@ -19,16 +19,16 @@ fn c09_fc_all_bytes() {
             kani::cover!(matches!(fc, FunctionCode::Request { .. }), "cover: a request byte decodes");
             kani::cover!(matches!(fc, FunctionCode::Response { .. }), "cover: a response byte decodes");
             let b2 = fc.to_byte();
-            assert!(
+            vassert!(
                 FunctionCode::from_byte(b2) == Ok(fc),
                 "C09/fc-reencode: decode(encode(decode(b))) == decode(b)"
             );
-            assert!(b2 == ref_fc_byte(fc), "C09/fc-layout: encoded byte equals the reference bit layout");
+            vassert!(b2 == ref_fc_byte(fc), "C09/fc-layout: encoded byte equals the reference bit layout");
             if b & 0x40 != 0 {
-                assert!(b2 == b, "C09/fc-request-bytes: a decodable request byte re-encodes to itself");
+                vassert!(b2 == b, "C09/fc-request-bytes: a decodable request byte re-encodes to itself");
             } else {
                 // Reserved bit b8 of a response is ignored on reception (recorded non-finding).
-                assert!(b2 == b & 0x7f, "C09/fc-response-bytes: a decodable response byte re-encodes to itself (b8 ignored)");
+                vassert!(b2 == b & 0x7f, "C09/fc-response-bytes: a decodable response byte re-encodes to itself (b8 ignored)");
             }
         }
         Err(_) => {
@@ -42,8 +42,8 @@ fn c09_fc_all_bytes() {
 fn c09_fc_all_values() {
     let fc = any_function_code();
     let b = fc.to_byte();
-    assert!(b == ref_fc_byte(fc), "C09/fc-layout: encoded byte equals the reference bit layout");
-    assert!(
+    vassert!(b == ref_fc_byte(fc), "C09/fc-layout: encoded byte equals the reference bit layout");
+    vassert!(
         FunctionCode::from_byte(b) == Ok(fc),
         "C09/fc-roundtrip: decode(encode(fc)) == fc for every request/response combination"
     );
@@ -78,15 +78,15 @@ fn data_roundtrip_content<const L: usize, const B: usize>() {
     let mut expect = [0u8; B];
     let elen = ref_encode(&h, pdu_len, |i| payload[i], &mut expect);
 
-    assert!(res.bytes_sent() == elen, "C09/len: bytes_sent equals the frame length");
-    assert!(h.telegram_len(pdu_len) == elen, "C09/len: telegram_len equals the frame length");
+    vassert!(res.bytes_sent() == elen, "C09/len: bytes_sent equals the frame length");
+    vassert!(h.telegram_len(pdu_len) == elen, "C09/len: telegram_len equals the frame length");
     let mut i = 0;
     while i < elen {
-        assert!(buf[i] == expect[i], "C09/wire: serialised bytes equal the reference frame");
+        vassert!(buf[i] == expect[i], "C09/wire: serialised bytes equal the reference frame");
         i += 1;
     }
     while i < B {
-        assert!(buf[i] == 0xAA, "C09/wire: no byte beyond the frame is written");
+        vassert!(buf[i] == 0xAA, "C09/wire: no byte beyond the frame is written");
         i += 1;
     }
 
@@ -94,29 +94,29 @@ fn data_roundtrip_content<const L: usize, const B: usize>() {
         FunctionCode::Request { req, .. } if ref_request_expects_reply(req) => Some(h.da),
         _ => None,
     };
-    assert!(res.expects_reply() == want_reply, "C09/expects-reply: reply expected exactly for acknowledged/answered request services");
+    vassert!(res.expects_reply() == want_reply, "C09/expects-reply: reply expected exactly for acknowledged/answered request services");
 
     // decode back (with and without trailing bytes)
     let extra: usize = kani::any();
     kani::assume(extra <= B && elen + extra <= B);
     match Telegram::deserialize(&buf[..elen + extra]) {
         Some(Ok((Telegram::Data(t), n))) => {
-            assert!(n == elen, "C09/consumed: decoding consumes exactly the frame");
-            assert!(t.h == h, "C09/roundtrip: decoded header identical");
-            assert!(t.pdu.len() == pdu_len, "C09/roundtrip: decoded payload length identical");
+            vassert!(n == elen, "C09/consumed: decoding consumes exactly the frame");
+            vassert!(t.h == h, "C09/roundtrip: decoded header identical");
+            vassert!(t.pdu.len() == pdu_len, "C09/roundtrip: decoded payload length identical");
             let mut i = 0;
             while i < pdu_len {
-                assert!(t.pdu[i] == payload[i], "C09/roundtrip: decoded payload identical");
+                vassert!(t.pdu[i] == payload[i], "C09/roundtrip: decoded payload identical");
                 i += 1;
             }
-            assert!(t.telegram_len() == elen, "C09/len: decoded telegram reports the frame length");
+            vassert!(t.telegram_len() == elen, "C09/len: decoded telegram reports the frame length");
             kani::cover!(buf[0] == SD1, "cover: SD1 frame round-trips");
             kani::cover!(buf[0] == SD3, "cover: SD3 frame round-trips");
             kani::cover!(buf[0] == SD2 && pdu_len == L, "cover: SD2 frame of maximum length round-trips");
             kani::cover!(buf[0] == SD2 && h.dsap.is_some() && h.ssap.is_some(), "cover: SD2 with both SAPs");
         }
         _ => {
-            assert!(false, "C09/roundtrip: an encoded data telegram decodes as a data telegram");
+            vassert!(false, "C09/roundtrip: an encoded data telegram decodes as a data telegram");
         }
     }
 }
@@ -151,27 +151,27 @@ fn c09_data_roundtrip_all_lengths_t() {
     let res = tx.send_data_telegram(h.clone(), pdu_len, |b| b.fill(fill));
     let mut expect = [0u8; 256];
     let elen = ref_encode(&h, pdu_len, |_| fill, &mut expect);
-    assert!(res.bytes_sent() == elen, "C09/len: bytes_sent equals the frame length");
-    assert!(h.telegram_len(pdu_len) == elen, "C09/len: telegram_len equals the frame length");
+    vassert!(res.bytes_sent() == elen, "C09/len: bytes_sent equals the frame length");
+    vassert!(h.telegram_len(pdu_len) == elen, "C09/len: telegram_len equals the frame length");
     let mut i = 0;
     while i < elen {
-        assert!(buf[i] == expect[i], "C09/wire: serialised bytes equal the reference frame");
+        vassert!(buf[i] == expect[i], "C09/wire: serialised bytes equal the reference frame");
         i += 1;
     }
     match Telegram::deserialize(&buf[..elen]) {
         Some(Ok((Telegram::Data(t), n))) => {
-            assert!(n == elen, "C09/consumed: decoding consumes exactly the frame");
-            assert!(t.h == h, "C09/roundtrip: decoded header identical");
-            assert!(t.pdu.len() == pdu_len, "C09/roundtrip: decoded payload length identical");
+            vassert!(n == elen, "C09/consumed: decoding consumes exactly the frame");
+            vassert!(t.h == h, "C09/roundtrip: decoded header identical");
+            vassert!(t.pdu.len() == pdu_len, "C09/roundtrip: decoded payload length identical");
             let mut i = 0;
             while i < pdu_len {
-                assert!(t.pdu[i] == fill, "C09/roundtrip: decoded payload identical");
+                vassert!(t.pdu[i] == fill, "C09/roundtrip: decoded payload identical");
                 i += 1;
             }
             kani::cover!(pdu_len == 246, "cover: 246-byte payload (no SAPs, LE = 249)");
             kani::cover!(pdu_len == 244 && saps == 2, "cover: 244-byte payload with both SAPs");
         }
-        _ => assert!(false, "C09/roundtrip: an encoded data telegram decodes as a data telegram"),
+        _ => vassert!(false, "C09/roundtrip: an encoded data telegram decodes as a data telegram"),
     }
 }
 
@@ -197,23 +197,23 @@ fn roundtrip_len<const L: usize, const D: bool, const S: bool>() {
     let res = TelegramTx::new(&mut buf).send_data_telegram(h.clone(), L, |b| b.fill(fill));
     let mut expect = [0u8; 256];
     let elen = ref_encode(&h, L, |_| fill, &mut expect);
-    assert!(res.bytes_sent() == elen && h.telegram_len(L) == elen, "C09/len: bytes_sent and telegram_len equal the frame length");
+    vassert!(res.bytes_sent() == elen && h.telegram_len(L) == elen, "C09/len: bytes_sent and telegram_len equal the frame length");
     let mut i = 0;
     while i < elen {
-        assert!(buf[i] == expect[i], "C09/wire: serialised bytes equal the reference frame");
+        vassert!(buf[i] == expect[i], "C09/wire: serialised bytes equal the reference frame");
         i += 1;
     }
     match Telegram::deserialize(&buf[..elen]) {
         Some(Ok((Telegram::Data(t), n))) => {
-            assert!(n == elen && t.h == h && t.pdu.len() == L, "C09/roundtrip: decoded header and payload length identical, exactly the frame consumed");
+            vassert!(n == elen && t.h == h && t.pdu.len() == L, "C09/roundtrip: decoded header and payload length identical, exactly the frame consumed");
             let mut i = 0;
             while i < L {
-                assert!(t.pdu[i] == fill, "C09/roundtrip: decoded payload identical");
+                vassert!(t.pdu[i] == fill, "C09/roundtrip: decoded payload identical");
                 i += 1;
             }
             kani::cover!(true, "cover: frame round-trips");
         }
-        _ => assert!(false, "C09/roundtrip: an encoded data telegram decodes as a data telegram"),
+        _ => vassert!(false, "C09/roundtrip: an encoded data telegram decodes as a data telegram"),
     }
 }
 
@@ -244,7 +244,7 @@ fn c09_frame_length_arithmetic() {
     let saps = h.dsap.is_some() as usize + h.ssap.is_some() as usize;
     kani::assume(pdu_len <= 246 && pdu_len + saps + 3 <= 249);
     let n = h.telegram_len(pdu_len);
-    assert!(n == ref_frame_len(&h, pdu_len), "C09/len: telegram_len equals the frame length for every length up to the limit");
+    vassert!(n == ref_frame_len(&h, pdu_len), "C09/len: telegram_len equals the frame length for every length up to the limit");
     kani::cover!(n == 255, "cover: maximum frame (255 bytes)");
     kani::cover!(n == 6, "cover: SD1");
     kani::cover!(n == 14, "cover: SD3");
@@ -257,29 +257,29 @@ fn c09_token_and_sc_roundtrip() {
     let sa: u8 = kani::any();
     let mut buf = [0u8; 8];
     let r = TelegramTx::new(&mut buf).send_token_telegram(da, sa);
-    assert!(r.bytes_sent() == 3, "C09/len: token is three bytes");
-    assert!(r.expects_reply().is_none(), "C09/expects-reply: token expects no reply");
-    assert!(buf[0] == SD4 && buf[1] == da && buf[2] == sa, "C09/wire: token frame is SD4 DA SA");
+    vassert!(r.bytes_sent() == 3, "C09/len: token is three bytes");
+    vassert!(r.expects_reply().is_none(), "C09/expects-reply: token expects no reply");
+    vassert!(buf[0] == SD4 && buf[1] == da && buf[2] == sa, "C09/wire: token frame is SD4 DA SA");
     let extra: usize = kani::any();
     kani::assume(extra <= 5);
     match Telegram::deserialize(&buf[..3 + extra]) {
         Some(Ok((Telegram::Token(t), n))) => {
-            assert!(n == 3 && t.da == da && t.sa == sa, "C09/roundtrip: token decodes identically");
-            assert!(t.telegram_len() == 3, "C09/len: token length");
+            vassert!(n == 3 && t.da == da && t.sa == sa, "C09/roundtrip: token decodes identically");
+            vassert!(t.telegram_len() == 3, "C09/len: token length");
             kani::cover!(da > 127, "cover: token with out-of-range address");
         }
-        _ => assert!(false, "C09/roundtrip: token decodes as token"),
+        _ => vassert!(false, "C09/roundtrip: token decodes as token"),
     }
 
     let mut buf = [0u8; 8];
     let r = TelegramTx::new(&mut buf).send_short_confirmation();
-    assert!(r.bytes_sent() == 1 && r.expects_reply().is_none(), "C09/len: SC is one byte");
-    assert!(buf[0] == SC, "C09/wire: SC frame is E5");
+    vassert!(r.bytes_sent() == 1 && r.expects_reply().is_none(), "C09/len: SC is one byte");
+    vassert!(buf[0] == SC, "C09/wire: SC frame is E5");
     match Telegram::deserialize(&buf[..1 + extra]) {
         Some(Ok((Telegram::ShortConfirmation(s), n))) => {
-            assert!(n == 1 && s.telegram_len() == 1, "C09/roundtrip: SC decodes identically");
+            vassert!(n == 1 && s.telegram_len() == 1, "C09/roundtrip: SC decodes identically");
         }
-        _ => assert!(false, "C09/roundtrip: SC decodes as SC"),
+        _ => vassert!(false, "C09/roundtrip: SC decodes as SC"),
     }
 }
 
@@ -319,24 +319,24 @@ fn decoder_total<const N: usize>() {
             // Reading (DESIGN §4 C10): "proper prefix of a frame of the announced length" = shorter
             // than the announced length, or than the 6 bytes a data frame needs to announce one.
             let need = ref_announced(input);
-            assert!(len < need, "C10/more-only-for-prefix: 'need more data' only for an input shorter than the announced frame");
+            vassert!(len < need, "C10/more-only-for-prefix: 'need more data' only for an input shorter than the announced frame");
             kani::cover!(len >= 6, "cover: need-more on a data frame with complete header");
         }
         Some(Err(())) => {
             kani::cover!(len == N, "cover: full-size buffer rejected");
         }
         Some(Ok((t, n))) => {
-            assert!(n >= 1 && n <= len, "C10/in-bounds: reported length lies inside the input");
+            vassert!(n >= 1 && n <= len, "C10/in-bounds: reported length lies inside the input");
             // The decoder also accepts the non-canonical SD2 encodings of LE=3 / LE=11 (which the
             // encoder would send as SD1 / SD3); for those the canonical length differs (non-finding).
             let noncanonical = input[0] == SD2 && (input[1] == 3 || input[1] == 11);
             if !noncanonical {
-                assert!(n == t.telegram_len(), "C10/in-bounds: reported length equals the telegram's own length");
+                vassert!(n == t.telegram_len(), "C10/in-bounds: reported length equals the telegram's own length");
             }
             if let Telegram::Data(d) = &t {
                 let base = input.as_ptr() as usize;
                 let p = d.pdu.as_ptr() as usize;
-                assert!(p >= base && p + d.pdu.len() <= base + n, "C10/in-bounds: payload lies inside the consumed frame");
+                vassert!(p >= base && p + d.pdu.len() <= base + n, "C10/in-bounds: payload lies inside the consumed frame");
                 kani::cover!(d.pdu.len() + 9 + 2 >= N, "cover: largest data frame for this buffer accepted");
             }
             kani::cover!(matches!(t, Telegram::Token(_)), "cover: token accepted");
@@ -365,15 +365,15 @@ fn decoder_accept<const N: usize>() {
     let input = &buf[..len];
     if let Some(Ok((Telegram::Data(d), n))) = Telegram::deserialize(input) {
         let sd = input[0];
-        assert!(sd == SD1 || sd == SD2 || sd == SD3, "C10/accept-sd: first start delimiter is SD1, SD2 or SD3");
+        vassert!(sd == SD1 || sd == SD2 || sd == SD3, "C10/accept-sd: first start delimiter is SD1, SD2 or SD3");
         let start = if sd == SD2 {
-            assert!(input[1] == input[2], "C10/accept-le: both length bytes agree");
-            assert!(input[1] >= 3, "C10/accept-le: length byte covers DA SA FC");
-            assert!(usize::from(input[1]) + 6 == n, "C10/accept-le: frame length follows from the length byte");
-            assert!(input[3] == SD2, "C10/accept-sd2: the repeated start delimiter is SD2");
+            vassert!(input[1] == input[2], "C10/accept-le: both length bytes agree");
+            vassert!(input[1] >= 3, "C10/accept-le: length byte covers DA SA FC");
+            vassert!(usize::from(input[1]) + 6 == n, "C10/accept-le: frame length follows from the length byte");
+            vassert!(input[3] == SD2, "C10/accept-sd2: the repeated start delimiter is SD2");
             4
         } else {
-            assert!(n == if sd == SD1 { 6 } else { 14 }, "C10/accept-le: fixed frame length");
+            vassert!(n == if sd == SD1 { 6 } else { 14 }, "C10/accept-le: fixed frame length");
             1
         };
         let mut sum = 0u8;
@@ -382,10 +382,10 @@ fn decoder_accept<const N: usize>() {
             sum = sum.wrapping_add(input[i]);
             i += 1;
         }
-        assert!(input[n - 2] == sum, "C10/accept-fcs: checksum is the sum of DA..DU");
-        assert!(input[n - 1] == ED, "C10/accept-ed: end delimiter");
-        assert!(d.h.da == input[start] & 0x7f && d.h.sa == input[start + 1] & 0x7f, "C10/accept-fields: addresses are the address octets without the extension bit");
-        assert!(d.h.dsap.is_some() == (input[start] & 0x80 != 0) && d.h.ssap.is_some() == (input[start + 1] & 0x80 != 0), "C10/accept-fields: SAP presence follows the extension bits");
+        vassert!(input[n - 2] == sum, "C10/accept-fcs: checksum is the sum of DA..DU");
+        vassert!(input[n - 1] == ED, "C10/accept-ed: end delimiter");
+        vassert!(d.h.da == input[start] & 0x7f && d.h.sa == input[start + 1] & 0x7f, "C10/accept-fields: addresses are the address octets without the extension bit");
+        vassert!(d.h.dsap.is_some() == (input[start] & 0x80 != 0) && d.h.ssap.is_some() == (input[start + 1] & 0x80 != 0), "C10/accept-fields: SAP presence follows the extension bits");
         kani::cover!(sd == SD2, "cover: SD2 accepted");
         kani::cover!(sd == SD3, "cover: SD3 accepted");
     }
@@ -414,12 +414,12 @@ fn decoder_prefix_consistency<const N: usize>() {
     match ri {
         None => {}
         Some(Err(())) => {
-            assert!(matches!(rj, Some(Err(()))), "C10/prefix: a rejected prefix stays rejected");
+            vassert!(matches!(rj, Some(Err(()))), "C10/prefix: a rejected prefix stays rejected");
             kani::cover!(j > i, "cover: rejected prefix with longer continuation");
         }
         Some(Ok((ti, ni))) => match rj {
             Some(Ok((tj, nj))) => {
-                assert!(ni == nj, "C10/prefix: an accepted prefix yields the same length on a longer input");
+                vassert!(ni == nj, "C10/prefix: an accepted prefix yields the same length on a longer input");
                 let same = match (&ti, &tj) {
                     (Telegram::Token(a), Telegram::Token(b)) => a == b,
                     (Telegram::ShortConfirmation(_), Telegram::ShortConfirmation(_)) => true,
@@ -436,10 +436,10 @@ fn decoder_prefix_consistency<const N: usize>() {
                     }
                     _ => false,
                 };
-                assert!(same, "C10/prefix: an accepted prefix yields the same telegram on a longer input");
+                vassert!(same, "C10/prefix: an accepted prefix yields the same telegram on a longer input");
                 kani::cover!(j > i && matches!(ti, Telegram::Data(_)), "cover: accepted data frame followed by more bytes");
             }
-            _ => assert!(false, "C10/prefix: an accepted prefix stays accepted"),
+            _ => vassert!(false, "C10/prefix: an accepted prefix stays accepted"),
         },
     }
 }
@@ -490,7 +490,7 @@ fn single_byte_corruption<const L: usize, const B: usize>() {
             kani::cover!(pos == n - 1, "cover: corrupted end delimiter rejected");
         }
         Some(Ok(_)) => {
-            assert!(false, "C10/single-byte: a frame with one substituted byte is never accepted");
+            vassert!(false, "C10/single-byte: a frame with one substituted byte is never accepted");
         }
     }
 }
@@ -514,7 +514,7 @@ fn c10_sc_corruption() {
     kani::assume(val != SC);
     let buf = [val];
     match Telegram::deserialize(&buf) {
-        Some(Ok(_)) => assert!(false, "C10/single-byte: a corrupted SC is never accepted"),
+        Some(Ok(_)) => vassert!(false, "C10/single-byte: a corrupted SC is never accepted"),
         _ => {
             kani::cover!(val == SD4, "cover: SC corrupted into a token start asks for more");
         }
